@@ -164,6 +164,7 @@ func VH_C06() {
 		vsym.Assert(after.Code() == before.Code() && string(after.Body) == string(before.Body), "C06/reject-leaves-object")
 		pa := listParts(h, "k", id, nil).Parts()
 		vsym.Assert(pa.OK && len(pa.Numbers) == len(partsBefore.Numbers), "C06/reject-leaves-upload")
+		vsym.Assert(sameInt64s(pa.Sizes, partsBefore.Sizes) && sameStrings(pa.ETags, partsBefore.ETags), "C06/reject-leaves-parts-intact")
 		// abort discards the upload without touching the object
 		ab := Do(h, Req{Method: "DELETE", Path: "/bkt/k", Query: url.Values{"uploadId": {id}}})
 		vsym.Assert(ab.Code() == 204, "C06/abort-status")
